@@ -245,7 +245,7 @@ func (r *Rewriter) expr(e *awk.Node) *awk.Node {
 		}
 		return e
 	case awk.Binary:
-		if e.Op == " " && e.A[0].K == awk.Binary && e.A[0].Op == " " && r.hit("concat-regroup", 3) {
+		if e.Op == " " && e.A[0].K == awk.Binary && e.A[0].Op == " " && !assignsFormat(e.A[1]) && r.hit("concat-regroup", 3) {
 			// (a b) c  ->  a (b c)
 			a, b, c := e.A[0].A[0], e.A[0].A[1], e.A[1]
 			return awk.BinN(r.expr(a), " ", awk.GroupN(awk.BinN(r.expr(b), " ", r.expr(c))))
@@ -307,4 +307,18 @@ func (r *Rewriter) expr(e *awk.Node) *awk.Node {
 		return e
 	}
 	return e
+}
+
+// assignsFormat: does the expression assign CONVFMT or OFMT?  Regrouping a
+// concatenation moves the moment its left operands are converted to strings
+// past the evaluation of its right operand, which is only an equivalence when
+// that operand leaves the conversion format alone.
+func assignsFormat(n *awk.Node) bool {
+	found := false
+	awk.Walk(n, func(m *awk.Node) {
+		if (m.K == awk.Assign || m.K == awk.Incr) && len(m.A) > 0 && m.A[0] != nil && m.A[0].K == awk.Var && (m.A[0].Name == "CONVFMT" || m.A[0].Name == "OFMT") {
+			found = true
+		}
+	})
+	return found
 }
